@@ -509,10 +509,10 @@ func (vc *VC) appendBuiltin(f *Frame, n *Node, in ssa.Instruction, c *ssa.CallCo
 			h := s.heap()
 			oldRow := sel(st.H[h], x.C[0])
 			// fresh object starts as a copy of the old prefix (shifted)
-			r1 := vc.copyCells(s, fmt.Sprintf("((as const %s) %s)", rowSort(s), zeroOf(s)), bvLit(64, 0), oldRow, x.C[1], scale(x.C[2], es), -1)
+			r1 := vc.copyCells(s, fmt.Sprintf("((as const %s) %s)", rowSort(s), zeroOf(s)), bvLit(64, 0), oldRow, x.C[1], vc.scaleReg(x.C[2], es), -1)
 			cur := vc.def(rowSort(s), ite(fits, oldRow, r1), "arow")
 			srcRow := sel(st.H[h], ybase)
-			r2 := vc.copyCells(s, cur, app("bvadd", off, scale(x.C[2], es)), srcRow, yoff, scale(ylen, es), -1)
+			r2 := vc.copyCells(s, cur, app("bvadd", off, vc.scaleReg(x.C[2], es)), srcRow, yoff, vc.scaleReg(ylen, es), -1)
 			st.H[h] = vc.def(heapSort(s), sto(st.H[h], base, r2), h)
 		}
 		return &SV{T: c.Args[0].Type(), C: []string{base, off, newLen, cp}, NonNil: true}
